@@ -11,7 +11,7 @@ use alloc::{vec, vec::Vec}; // for generated concrete-playback tests (no_std cra
 //@ funcs: ValTx::round::<MV> with f64::floor, f64::round, f64::ceil
 //@ bounds: all f64 (incl. NaN, infinities, beyond +-2^63), all three rounding modes
 //@ assume: alloc::fmt::format stubbed (the `{f:.0}` rendering of floats beyond the machine range is not the subject)
-//@ asserts: floor/round/ceil of a float yield the closest smaller / closest / closest larger integer: a machine-integer result equals the IEEE-rounded float exactly (compared in i128, so a saturating cast cannot hide); results beyond the machine range take the big-number path; integers are returned unchanged; non-finite input is passed through
+//@ asserts: floor/round/ceil of a float yield the closest smaller / closest / closest larger integer: a machine-integer result equals the IEEE-rounded float exactly (compared in i128, so a saturating cast cannot hide); results beyond the machine range take the big-number path; non-finite input is passed through (integers: c12_round_integers_unchanged)
 #[kani::proof]
 #[kani::unwind(6)]
 #[kani::stub(alloc::fmt::format, no_format)]
@@ -37,8 +37,6 @@ fn c12_round_exact_or_big() {
         Ok(MV::Float(g)) => assert!(!f.is_finite() && (g.is_nan() == f.is_nan())),
         _ => panic!("round of a float yielded a non-number or an error"),
     }
-    let i: isize = kani::any();
-    assert!(matches!(MV::Int(i).round(f64::floor), Ok(MV::Int(j)) if j == i));
     kani::cover!(matches!(r, Ok(MV::Int(isize::MIN))));
     kani::cover!(matches!(r, Ok(MV::Big)) && f > 0.0);
     kani::cover!(matches!(r, Ok(MV::Int(-1))) && which == 0);
@@ -51,6 +49,32 @@ fn key_half<'a>(v: MV) -> ValXs<'a, MV> {
         MV::Int(i) => box_once(Ok(MV::Int(i >> 1))),
         _ => box_once(Err(Exn::from(Error::new(v)))),
     }
+}
+
+//@ tier: quick
+//@ inst: V = MV
+//@ funcs: ValTx::round::<MV> with f64::floor, f64::round, f64::ceil
+//@ bounds: all machine integers (also beyond 2^53, where i as f64 is inexact) and the big-integer surrogate, all three rounding modes
+//@ assume: alloc::fmt::format stubbed
+//@ asserts: floor/round/ceil return an integer unchanged -- it is never sent through f64 and back
+#[kani::proof]
+#[kani::unwind(6)]
+#[kani::stub(alloc::fmt::format, no_format)]
+fn c12_round_integers_unchanged() {
+    let i: isize = kani::any();
+    let which: u8 = kani::any();
+    kani::assume(which < 3);
+    let r = match which {
+        0 => MV::Int(i).round(f64::floor),
+        1 => MV::Int(i).round(f64::round),
+        _ => MV::Int(i).round(f64::ceil),
+    };
+    assert!(matches!(r, Ok(MV::Int(j)) if j == i));
+    let b = MV::Big.round(f64::floor);
+    assert!(matches!(b, Ok(MV::Big)));
+    kani::cover!(i == isize::MAX);
+    kani::cover!(i == 9007199254740993);
+    core::mem::forget((r, b));
 }
 
 //@ tier: attempt
